@@ -41,7 +41,7 @@ struct Item<'a> {
 
 fn rec(ctx: &Ctx, e: &Entry, sw: &Sweep, suffix: &str, buf: &mut String, depth: usize, max: usize, local: &mut Local, n: &mut u64) {
   // evaluate the current string
-  let keep = depth <= 4;
+  let keep = depth <= 4 && max <= 5;
   let plen = buf.len();
   buf.push_str(suffix);
   crate::run1(ctx, e, In::S(buf), local, keep);
@@ -942,11 +942,18 @@ pub fn generate(ctx: &Ctx) {
   let l45 = (4, 5);
   let mut sweeps = vec![
     sw("CoreDID::parse", A_DID, &did_frames(), l45),
-    sw("CoreDID::from_json", A_DID, &did_frames(), (4, 4)),
+    // the primary parsers go one symbol deeper (6) in the thorough tier on their main frames
+    sw("CoreDID::parse", A_DID, &[("did:m:", ""), ("did:", "")], (4, 6)),
+    sw("DIDUrl::parse", A_DID, &[("did:m:a", ""), ("did:m:", "")], (4, 6)),
+    sw("IotaDID::parse", A_DID, &[("did:iota:", "")], (4, 6)),
+    sw("DIDUrl::join", A_DID, &[("", "")], (4, 6)),
+    sw("Timestamp::parse", A_TS, &[("2023-11-14T22:13:20", ""), ("9999-12-31T23:59:59", ""), ("0000-01-01T00:00:00", "")], (4, 6)),
+    sw("Url::parse", A_URL, &[("", ""), ("https://", "")], (4, 6)),
+    sw("CoreDID::from_json", A_DID, &did_frames(), l45),
     sw("CoreDID::set_method_name", A_DID, &[("", ""), ("ab", "")], l45),
     sw("CoreDID::set_method_id", A_DID, &[("", ""), ("a:", ""), ("%4", "")], l45),
     sw("DIDUrl::parse", A_DID, &[("", ""), ("did:m:", ""), ("did:m:a", ""), ("did:m:a/p?q", ""), ("did:m:a#", ""), ("did:iota:", "#k")], l45),
-    sw("DIDUrl::from_json", A_DID, &[("did:m:", ""), ("did:m:a", "")], (4, 4)),
+    sw("DIDUrl::from_json", A_DID, &[("did:m:", ""), ("did:m:a", "")], l45),
     sw("DIDUrl::join", A_DID, &[("", ""), ("/", ""), ("?", ""), ("#", "")], l45),
     sw("DID::join", A_DID, &[("", ""), ("#", "")], l45),
     sw("DIDUrl::set_path", A_DID, &[("", ""), ("/", "")], l45),
@@ -959,7 +966,7 @@ pub fn generate(ctx: &Ctx) {
       l45,
     ),
     sw("IotaDID::parse", A_HEX, &[("did:iota:", &zeros62), ("did:iota:0x", &zeros60), (&format!("did:iota:0x{zeros60}"), ""), (&format!("did:iota:rms:0x{zeros60}"), "")], l45),
-    sw("IotaDID::from_json", A_DID, &[("did:iota:", &format!(":{tag0}")), (&format!("did:iota:{tag0}"), "")], (4, 4)),
+    sw("IotaDID::from_json", A_DID, &[("did:iota:", &format!(":{tag0}")), (&format!("did:iota:{tag0}"), "")], l45),
     sw("IotaDID::from_json", A_HEX, &[("did:iota:0x", &zeros60), (&format!("did:iota:0x{zeros60}"), "")], l45),
     sw("IotaDID::try_from(CoreDID)", A_DID, &[("did:iota:", &format!(":{tag0}")), (&format!("did:iota:{tag0}"), ""), ("did:iota:", "")], l45),
     sw("IotaDID::try_from(CoreDID)", A_HEX, &[("did:iota:0x", &zeros60), (&format!("did:iota:0x{zeros60}"), "")], l45),
@@ -967,7 +974,7 @@ pub fn generate(ctx: &Ctx) {
     sw("IotaDID::from_alias_id", A_DID, &[("", ""), (&tag0, "")], (3, 4)),
     sw("DIDJwk::parse", A_DID, &[("did:jwk:", ""), (&jwk_did, "")], l45),
     sw("DIDJwk::parse", A_B64, &[("did:jwk:", ""), (&jwk_did, ""), ("did:jwk:", &jwk_b64[4..]), (&jwk_did[..jwk_did.len() - 4], ""), ("did:jwk:eyJ", "")], l45),
-    sw("DIDJwk::from_json", A_B64, &[(&jwk_did, ""), (&jwk_did[..jwk_did.len() - 4], "")], (4, 4)),
+    sw("DIDJwk::from_json", A_B64, &[(&jwk_did, ""), (&jwk_did[..jwk_did.len() - 4], "")], l45),
     sw(
       "Timestamp::parse",
       A_TS,
@@ -986,18 +993,18 @@ pub fn generate(ctx: &Ctx) {
       ],
       (4, 5),
     ),
-    sw("Timestamp::from_json", A_TS, &[("9999-12-31T23:59:59", ""), ("0000-01-01T00:00:00", ""), ("", "-01-01T00:00:00Z")], (4, 4)),
+    sw("Timestamp::from_json", A_TS, &[("9999-12-31T23:59:59", ""), ("0000-01-01T00:00:00", ""), ("", "-01-01T00:00:00Z")], (4, 5)),
     sw("NetworkName::try_from", A_NET, &[("", "")], (6, 7)),
     sw("NetworkName::from_json", A_NET, &[("", "")], (5, 7)),
     sw("NetworkName::from_json", A_DID, &[("", ""), ("smr", "")], (3, 4)),
-    sw("IntegrityMetadata::parse", A_INT, &[("", ""), ("sha256-", ""), ("sha256-AAAA", ""), ("sha256", "-AAAA?x")], (5, 5)),
-    sw("IntegrityMetadata::from_json", A_INT, &[("", ""), ("sha256-", "")], (4, 4)),
+    sw("IntegrityMetadata::parse", A_INT, &[("", ""), ("sha256-", ""), ("sha256-AAAA", ""), ("sha256", "-AAAA?x")], (5, 6)),
+    sw("IntegrityMetadata::from_json", A_INT, &[("", ""), ("sha256-", "")], (4, 5)),
     sw("Url::parse", A_URL, &[("", ""), ("https://", ""), ("did:", ""), ("https://a", "/b"), ("data:", "")], l45),
     sw("Url::join", A_URL, &[("", ""), ("../", "")], l45),
     sw("StringOrUrl::parse", A_URL, &[("", ""), ("https://", "")], l45),
     sw("BaseEncoding::decode", A_B64, &[("", "")], l45),
-    sw("BaseEncoding::decode", &["0", "1", "7", "9", "a", "f", "z", "Z", "l", "O", "I", "=", "2", "8", " ", "é"], &[("", "")], (4, 4)),
-    sw("decode_multibase/MethodData::try_decode", &["z", "m", "u", "f", "F", "b", "B", "0", "7", "9", "M", "U", "k", "=", "é", "1"], &[("", ""), ("z", ""), ("m", ""), ("u", ""), ("f", ""), ("b", ""), ("\u{0}", "")], l45),
+    sw("BaseEncoding::decode", &["0", "1", "7", "9", "a", "f", "z", "Z", "l", "O", "I", "=", "2", "8", " ", "é"], &[("", "")], l45),
+    sw("decode_multibase/MethodData::try_decode", &["z", "m", "u", "f", "F", "b", "B", "0", "7", "9", "M", "U", "k", "=", "é", "1"], &[("", ""), ("z", ""), ("m", ""), ("u", ""), ("f", ""), ("b", ""), ("k", ""), ("7", ""), ("9", ""), ("\u{0}", ""), ("é", "")], l45),
     sw("jwu::decode_b64(_json)", A_B64, &[("", ""), (&jwk_b64, ""), (&jwk_b64[..jwk_b64.len() - 4], ""), ("", &jwk_b64[4..])], l45),
     sw("FromStr(small enums)", &["a", "A", "E", "d", "D", "S", "2", "5", "6", "K", "#", " ", "é", "s", "e", "y"], &[("", ""), ("ES", ""), ("authentica", "tion"), ("Ed", "DSA")], l45),
     sw("CoreDocument::resolve_method/service(query)", &["k", "s", "a", "#", "?", "/", ":", "d", "i", "%", " ", "é", "1", "2", "3", "\n"], &[("", ""), ("did:example:123", ""), ("did", ""), ("did:example:123#", ""), ("#", "")], l45),
